@@ -82,6 +82,13 @@ def lacks(ctx, f, node, ch, env_lacks, depth=0):
             ok, v = ctx.ce.try_eval(base.args[0], f.module)
             if ok and v == ch:
                 return True
+        if isinstance(base, ast.Call) and isinstance(base.func, ast.Attribute) and base.func.attr in ('partition', 'rpartition') \
+                and len(base.args) == 1 and not base.keywords and isinstance(node.slice, ast.Constant) and node.slice.value in (0, 2, -1, -3):
+            ok, v = ctx.ce.try_eval(base.args[0], f.module)
+            head = node.slice.value in (0, -3)
+            if ok and v == ch and head == (base.func.attr == 'partition'):
+                return True     # the part before the first (after the last) separator lacks it
+            return rec(base.func.value)
         return rec(base)       # slice / element of a lacking string
     if isinstance(node, ast.Call) and isinstance(node.func, ast.Attribute):
         m = node.func.attr
@@ -106,6 +113,14 @@ def lacks(ctx, f, node, ch, env_lacks, depth=0):
             if isinstance(a, ast.Name):
                 return env_lacks.get(a.id, False)
             return False
+        # a helper of the repository: every string it returns lacks the character
+        callee = F._static_callee(ctx, node, f)[0]
+        if callee is not None and callee.name != '__init__' and depth < 6 and callee.qualname not in _LACKS_BUSY:
+            _LACKS_BUSY.add(callee.qualname)
+            try:
+                return function_result_lacks(ctx, callee, ch)
+            finally:
+                _LACKS_BUSY.discard(callee.qualname)
     if isinstance(node, ast.BinOp) and isinstance(node.op, ast.Add):
         return rec(node.left) and rec(node.right)
     if isinstance(node, (ast.ListComp, ast.GeneratorExp)):      # a list lacks ch when each of its elements does
@@ -121,6 +136,9 @@ def lacks(ctx, f, node, ch, env_lacks, depth=0):
     if isinstance(node, ast.IfExp):
         return rec(node.body) and rec(node.orelse)
     return False
+
+
+_LACKS_BUSY = set()
 
 
 def _iter_elem_lacks(ctx, f, it, ch, env_lacks, depth):
@@ -154,6 +172,9 @@ def function_result_lacks(ctx, f, ch):
         val = sp.value
         if '<guard>' in env and src(val) == env['<guard>']:
             continue
+        # the value returned on this path, locals replaced by what they hold on it
+        if val is not None and lacks(ctx, f, val, ch, {}):
+            continue
         # loop-built lists
         e2 = {}
         for lp in walk_local(f.node):
@@ -163,6 +184,11 @@ def function_result_lacks(ctx, f, ch):
         for a in walk_local(f.node):
             if isinstance(a, ast.Assign) and len(a.targets) == 1 and isinstance(a.targets[0], ast.Name):
                 assigns.setdefault(a.targets[0].id, []).append(a.value)
+            elif isinstance(a, ast.Assign) and len(a.targets) == 1 and isinstance(a.targets[0], ast.Tuple) and len(a.targets[0].elts) == 3 \
+                    and all(isinstance(t, ast.Name) for t in a.targets[0].elts) and isinstance(a.value, ast.Call) \
+                    and isinstance(a.value.func, ast.Attribute) and a.value.func.attr in ('partition', 'rpartition'):
+                for k, t in enumerate(a.targets[0].elts):       # head, sep, tail = x.partition(sep)
+                    assigns.setdefault(t.id, []).append(ast.Subscript(value=a.value, slice=ast.Constant(value=k), ctx=ast.Load()))
         # greatest fixpoint: assume every assigned local lacks ch, then remove the ones that cannot be shown to
         def is_list(vals_):
             return all(isinstance(v, ast.List) and not v.elts for v in vals_)
@@ -316,7 +342,7 @@ def r3_note_by_note(ctx, sep):
     # the result must be derived from every note: join over the chord separator or the untouched whole cell
     if note_vars:
         joins = [c for c in walk_local(f.node) if isinstance(c, ast.Call) and isinstance(c.func, ast.Attribute) and c.func.attr == 'join'
-                 and isinstance(c.func.value, ast.Constant) and c.func.value.value == chord_sep]
+                 and ctx.ce.try_eval(c.func.value, f.module, f.cls, {}) == (True, chord_sep)]
         ctx.check(len(joins) >= 1, 'R3', f.loc, f.qualname, 'notes-rejoined', 'the reduced notes are joined again with the chord separator')
     ctx.expect_count('R3', 'decoration removal sites', n_trunc, 1)
     # BkernTokenizer inherits through R1; the basic encodings never contain the decoration separator
@@ -331,9 +357,10 @@ def _chord_separator(ctx):
     ch = ctx.prog.func(f'{N.TOKENS}.ChordToken.export')
     seps = set()
     for n in walk_local(ch.node):
-        if isinstance(n, ast.Call) and isinstance(n.func, ast.Attribute) and n.func.attr == 'join' and isinstance(n.func.value, ast.Constant) \
-                and n.args and 'self.notes_tokens' in src(n.args[0]):
-            seps.add(n.func.value.value)
+        if isinstance(n, ast.Call) and isinstance(n.func, ast.Attribute) and n.func.attr == 'join' and n.args and 'self.notes_tokens' in src(n.args[0]):
+            okj, vj = ctx.ce.try_eval(n.func.value, ch.module, ch.cls, {})
+            if okj and isinstance(vj, str):
+                seps.add(vj)
         if isinstance(n, ast.For) and 'self.notes_tokens' in src(n.iter):
             for sp in symex.sym_paths(n.body, fi=ch):
                 for name, val in sp.env.items():
@@ -348,8 +375,9 @@ def _chord_separator(ctx):
                     flat(val)
                     if len(parts) >= 2 and F.is_name(parts[0], name) and any(isinstance(p_, ast.Call) and 'export' in src(p_.func) for p_ in parts):
                         for p_ in parts[1:]:
-                            if isinstance(p_, ast.Constant) and isinstance(p_.value, str) and p_.value:
-                                seps.add(p_.value)
+                            okp, vp = ctx.ce.try_eval(p_, ch.module, ch.cls, {}) if isinstance(p_, (ast.Constant, ast.Name, ast.Attribute)) else (False, None)
+                            if okp and isinstance(vp, str) and vp:
+                                seps.add(vp)
     if len(seps) != 1:
         raise AnalysisError(f'{ch.loc}: chord separator not recognised: {seps}')
     return seps.pop()
